@@ -14,7 +14,7 @@ ID = 'C02'
 LEVEL = 'exploration'
 RUNS = {'quick': 20000, 'thorough': 400000}
 CHUNK = 60
-PROBES = ['abandoned_parse_before', 'crashed_parse_before', 'v3_with_logs_before', 'residue_before', 'duplicate_tid_in_map',
+PROBES = ['record_with_zero_timestamp_and_debugid', 'pid_with_top_bit_set', 'abandoned_parse_before', 'crashed_parse_before', 'v3_with_logs_before', 'residue_before', 'duplicate_tid_in_map',
           'duplicate_pid_in_map', 'empty_map', 'pad_nonzero', 'pad_zero', 'arbitrary_record_bytes', 'name_19_bytes',
           'bytes_after_nul', 'same_kdbuf_object_reused', 'zero_records', 'first_record_leading_zero']
 RULE = ('one run = a history of 1..7 operations on one long-lived table pair (full / abandoned / crashed / v3 parses, residue '
@@ -46,6 +46,16 @@ def _gen_file(rng, version=2, arbitrary=None):
             if rng.chance(0.3):
                 for j in range(rng.randrange(64)):
                     b[rng.randrange(64)] = 0
+            r = rng.random()
+            if r < 0.08:
+                b[0:8] = bytes(8)              # timestamp 0
+                b[48:52] = bytes(4)            # debugid 0 (a slot the kernel never wrote looks like this; it is still a record)
+            elif r < 0.12:
+                b = bytearray(64)              # an all-zero record (never the first one, see ASSUMPTIONS)
+            elif r < 0.16:
+                b = bytearray(b'\xff' * 64)
+            elif r < 0.2:
+                b[48:52] = bytes(4)
             if i == 0 and b[0] == 0:
                 b[0] = rng.randrange(1, 256)
             recs.append(bytes(b).hex())
@@ -84,6 +94,8 @@ def _file_bytes(f):
     if f.get('zero_lead') and rb:
         k = min(63, f['zero_lead'])
         rb[0] = b'\x00' * k + rb[0][k:]
+        if not any(rb[0]):
+            rb[0] = rb[0][:63] + b'\x01'      # a first record of 64 zero bytes is indistinguishable from padding: never generated
     data, layout = worlds.build_file(f['writer'], rb)
     return data, rb
 
@@ -172,6 +184,10 @@ def execute(scn):
         bump('probe:bytes_after_nul')
     if not rb:
         bump('probe:zero_records')
+    if any(x[0:8] == bytes(8) and x[48:52] == bytes(4) for x in rb[1:]):
+        bump('probe:record_with_zero_timestamp_and_debugid')
+    if any(t[1] >= 1 << 31 for t in w.get('tmap', [])):
+        bump('probe:pid_with_top_bit_set')
     zero_lead = bool(rb) and rb[0][:1] == b'\x00'
     if zero_lead:
         bump('probe:first_record_leading_zero')
